@@ -379,7 +379,8 @@ def refined_ok(v, r, siblings: dict) -> tuple[bool, str]:
         if k == "FloatList":
             return (v in r[1], "FloatList")
         if k == "VarRange":
-            return (v in r[1], "VarRange")
+            # "one of the options": the very value, not something that merely prints alike
+            return (any(type(v) is type(o) and v == o for o in r[1]), "VarRange")
         if k in ("ListSizeBetween", "LSBWLO"):
             return (isinstance(v, list) and r[1] <= len(v) <= r[2], k)
         if k == "StringSizeBetween":
@@ -631,3 +632,17 @@ def canon_nodes(c) -> int:
     if h in ("L", "T"):
         return sum(canon_nodes(x) for x in c[1:])
     return 1 + sum(canon_nodes(x) for x in c[1:])
+
+
+def handmade_copy(p, info):
+    """The same program written out by hand: every production instance is rebuilt through its
+    constructor, lists become plain lists - no node carries anything the library attached."""
+    if isinstance(p, list):
+        return [handmade_copy(x, info) for x in p]
+    if isinstance(p, tuple):
+        return tuple(handmade_copy(x, info) for x in p)
+    by_class = {c: n for n, c in info.classes.items()}
+    name = by_class.get(type(p))
+    if name is None or name not in info.fields:
+        return p
+    return type(p)(*[handmade_copy(getattr(p, fn), info) for fn, _ in info.fields[name]])
